@@ -7,5 +7,5 @@ trap 'rm -rf $D' EXIT
 rsync -a --exclude target --exclude .git /repo/ $D/
 (cd $D && patch -p1 -F3 --no-backup-if-mismatch -s -i $V/seeded/$1/patch.diff)
 cp $V/evidence/$2.json $D/.ev.keep 2>/dev/null || true
-cd $V && VERIF_REPO=$D VERIF_SELFTEST=1 ./check $2 || true
+cd $V && VERIF_REPO=$D VERIF_SELFTEST=1 VERIF_EVIDENCE_DIR=$D/.ev ./check $2 || true
 cp $D/.ev.keep $V/evidence/$2.json 2>/dev/null || true
